@@ -338,8 +338,72 @@ fn adapter_case(n: usize, which: usize, k: usize, rep: &mut Report) {
     rep.distinct(vmon::rng::mix(55_000 + n as u64 * 1000 + which as u64 * 50, k as u64));
 }
 
+/// The same callback fed several times (batches): a `false` ends one feeding, not the callback.
+/// `stops[r]` = index within round r at which the sink returns false (None: takes the whole round).
+fn rounds_case(sizes: &[usize], stops: &[Option<usize>], by_ref: bool, rep: &mut Report) {
+    let mark = tracked::mark();
+    let tag = format!("rounds sizes={:?} stops={:?} entry={}", sizes, stops, if by_ref { "feed_into_mut" } else { "call" });
+    let mut seen: Vec<(usize, usize)> = vec![];
+    let mut kept: Vec<Tracked> = vec![];
+    let mut want: Vec<(usize, usize)> = vec![];
+    let mut counts: Vec<usize> = vec![];
+    let mut want_counts: Vec<usize> = vec![];
+    {
+        let round = std::cell::Cell::new(0usize);
+        let mut sink = |it: Item| -> bool {
+            seen.push((round.get(), it.seq));
+            kept.push(it.t);
+            Some(it.seq) != stops[round.get()]
+        };
+        let mut cb: OpaqueCallback<Item> = (&mut sink).into();
+        for (r, n) in sizes.iter().enumerate() {
+            round.set(r);
+            let (its, _) = items(*n);
+            let offered = match stops[r] { Some(p) if p < *n => p + 1, _ => *n };
+            for i in 0..offered { want.push((r, i)); }
+            want_counts.push(offered);
+            if by_ref {
+                counts.push(its.into_iter().feed_into_mut(&mut cb));
+            } else {
+                let mut cnt = 0;
+                for it in its {
+                    cnt += 1;
+                    if !cb.call(it) { break; }
+                }
+                counts.push(cnt);
+            }
+        }
+    }
+    if seen != want {
+        rep.violation("C15:callback-sequence", &format!("{}: over all rounds the sink saw (round,item) {:?}, offered were {:?}", tag, seen, want), &tag);
+    }
+    if counts != want_counts {
+        rep.violation("C15:offered-count", &format!("{}: per-round counts {:?}, expected {:?}", tag, counts, want_counts), &tag);
+    }
+    drop(kept);
+    let (leaked, multi) = tracked::since(mark);
+    if !leaked.is_empty() || !multi.is_empty() {
+        rep.violation("C15:item-ownership", &format!("{}: leaked {:?} double-dropped {:?}", tag, leaked, multi), &tag);
+    }
+    rep.add("callback_round_cases", 1);
+}
+
 pub fn run(args: &Args, rep: &mut Report) {
     let maxn = args.get("maxn", 7) as usize;
+    // two and three feedings of one callback, every stop position in the first two rounds
+    for a in 0..=3usize {
+        for b in 0..=3usize {
+            for sa in 0..=a {
+                for sb in 0..=b {
+                    let stops = [if sa < a { Some(sa) } else { None }, if sb < b { Some(sb) } else { None }, None];
+                    for by_ref in [false, true] {
+                        rounds_case(&[a, b], &stops[..2], by_ref, rep);
+                        rounds_case(&[a, b, 2], &stops, by_ref, rep);
+                    }
+                }
+            }
+        }
+    }
     let entries = [Entry::FeedInto, Entry::FeedIntoMut, Entry::Extend, Entry::Call];
     for n in 0..=maxn {
         for e in entries {
